@@ -89,7 +89,10 @@ func genC02Round(t *rapid.T, cfg *h.GenCfg, s *h.Schema, label string) C02Round 
 		}
 	}
 	if rapid.IntRange(0, 3).Draw(t, label+".pause") == 0 {
-		r.Pause = rapid.SampledFrom([]string{"insert.subvalue", "insert.subvalue", "rs.insert.applied", "table.entry.done", "rs.insert.recv"}).Draw(t, label+".pausept")
+		// any instrumented step can be held open: the row-store / table steps let a
+		// flush land inside an insert, the flush / offset steps let inserts, further
+		// flushes and old-file removal land inside a flush
+		r.Pause = rapid.SampledFrom(append([]string{"insert.subvalue", "rs.insert.applied", "flush.renamed", "flush.renamed", "flush.written"}, c02Points...)).Draw(t, label+".pausept")
 		r.PauseN = rapid.IntRange(1, 4).Draw(t, label+".pausen")
 		r.PauseMS = rapid.SampledFrom([]int{20, 60, 120}).Draw(t, label+".pausems")
 	}
